@@ -38,6 +38,8 @@ impl<A: Actor> Drop for Receiver<A> {
         // released and its caller observes `CallError::NoReply` instead of
         // waiting forever for an actor that is gone.
         while self.messages.try_recv().is_ok() {}
+        #[cfg(compio_verif)]
+        crate::verif::sched_point(crate::verif::RECEIVER_DRAINED);
     }
 }
 
